@@ -5,7 +5,9 @@ ID = "C03"
 TITLE = "forest table method = least fixed point, order independent, monotone"
 COQ_PROPS = "Props/C03.v"
 COQ_RUN = ("Forest.Run", "run_c03")
-GEN_TARGETS = ["can_give_terms", "compute_shift", "preimage_gap"]
+GEN_TARGETS = ["can_give_terms", "compute_shift", "preimage_gap",
+               # the gap bookkeeping (Forest/GenBridgeGap.v proves the model branches on these)
+               "increase_value_hold", "correct_gap_new_gap", "correct_gap_release"]
 N = {"quick": 12000, "thorough": 400000}
 # a case takes milliseconds; an implementation that loops (the MODEL provably does not:
 # C03_terminates) is reported as a violation with its input after this CPU budget
@@ -391,4 +393,40 @@ LEVEL_NOTE = (
     "The model is layer A of DESIGN.md (firing decided from the value table, re-queue = all fireable rules "
     "mentioning the class); the incrementally maintained _shifts/_rules_using_class bookkeeping of the code is "
     "covered by the correspondence only. Trusted: Coq kernel, extraction, OCaml driver, harness."
+)
+
+
+_FOREST_HEAD = "class TableMethod:\n"
+# source texts outside the translator's subset / with a changed shape: each must be REJECTED (fail closed)
+_BAD_SNIPPETS = [
+    ("increase_value_hold", _FOREST_HEAD + "    def _increase_value(self, comb_class, rule_idx):\n"
+     "        current_value = self._function[comb_class]\n"
+     "        if current_value > self._current_gap[1]:\n            self._rule_holding_extra_terms.add(rule_idx)\n"
+     "            return\n", "the None test that makes current_value an int is gone"),
+    ("increase_value_hold", _FOREST_HEAD + "    def _increase_value(self, comb_class, rule_idx):\n"
+     "        current_value = self._function[comb_class]\n        if current_value is None:\n            return\n"
+     "        if self._strict:\n            if current_value > self._current_gap[1]:\n"
+     "                self._rule_holding_extra_terms.add(rule_idx)\n                return\n",
+     "the hold test is wrapped in a new condition"),
+    ("increase_value_hold", _FOREST_HEAD + "    def _increase_value(self, comb_class, rule_idx):\n"
+     "        current_value = self._function[comb_class]\n        if current_value is None:\n            return\n"
+     "        if current_value > self._current_gap[1] // 2:\n            self._rule_holding_extra_terms.add(rule_idx)\n"
+     "            return\n", "unsupported operator"),
+    ("correct_gap_new_gap", _FOREST_HEAD + "    def _correct_gap(self):\n        k = self._function.preimage_gap(self._gap_size)\n"
+     "        k = k + 1\n        new_gap = (k, k + self._gap_size - 1)\n", "local k assigned twice"),
+    ("correct_gap_release", _FOREST_HEAD + "    def _correct_gap(self):\n        k = self._function.preimage_gap(self._gap_size)\n"
+     "        new_gap = (k, k + self._gap_size - 1)\n        if new_gap[1] > self._last_gap[1]:\n"
+     "            self._processing_queue.extend(self._rule_holding_extra_terms)\n", "reads an attribute the target does not bind"),
+]
+
+
+def extra_checks(ctx):
+    from harness import gen_selftest
+
+    return [gen_selftest.rejects(_BAD_SNIPPETS)] + gen_selftest.checks(GEN_TARGETS, ctx.seed, ID)
+
+
+# translator tie (DESIGN.md 10.9): what the regenerated definitions add to the level
+LEVEL_NOTE += (
+    ' The hold test of _increase_value and the gap interval / release test of _correct_gap are also RE-TRANSLATED from forest.py on every run and the model is proved to branch on exactly those expressions (C03_hold_test_is_source, C03_correct_gap_is_source; Forest/GenBridgeGap.v); each regenerated definition is evaluated against the source on random arguments every run (harness/gen_selftest.py).'
 )
